@@ -170,6 +170,29 @@ def user_unsafe_blocks(F):
     return out
 
 
+def _walk_straight(e):
+    """Nodes evaluated unconditionally when `e` is evaluated (no descent into branches, loops, closures)."""
+    stack = [e]
+    while stack:
+        n = stack.pop()
+        if not isinstance(n, dict):
+            continue
+        yield n
+        if n.get("k") in ("If", "Match", "Loop", "While", "For", "Closure", "Logical"):
+            # only the condition / scrutinee is unconditional
+            for key in ("cond", "scrut", "iter", "l"):
+                if isinstance(n.get(key), dict):
+                    stack.append(n[key])
+            continue
+        for key, v in n.items():
+            if key in ("fn", "var", "pat", "poll_fn", "iter_fn", "next_fn", "eq_fn", "residual_fn"):
+                continue
+            if isinstance(v, dict):
+                stack.append(v)
+            elif isinstance(v, list):
+                stack.extend(x for x in v if isinstance(x, dict))
+
+
 def h_utf8(F, R):
     """Strings in decoded packets come only from read_string, whose single unchecked construction is
     dominated by a successful simdutf8 validation of the very same buffer."""
@@ -193,7 +216,7 @@ def h_utf8(F, R):
                 e = s.get("init") if s["k"] == "Let" else s.get("e")
                 if e is None:
                     continue
-                for y in walk_all(e):
+                for y in _walk_straight(e):
                     if y.get("k") == "Try":
                         inner = strip(y["e"])
                         if inner.get("k") == "Call" and inner["fn"].get("name") == "map_err":
